@@ -457,7 +457,7 @@ func init() {
 	run.Register(run.Prop[C16Case]{
 		ID:    "C16",
 		Level: "exploration",
-		Rule: "case = persisted tree (generated history over the key pools, bf 2-64, heights 0-5; plus an enumerated family of large trees of 600-2500 (thorough 40000) consecutive int keys at bf 2, 4 and 16, with absent keys of every layer below and above the stored range) re-opened WITHOUT cache for each of 1-8 probes (operation kind x key present/absent of any layer, incl. inserts of the highest-layer absent key below the minimum / anywhere and deletes of the highest-layer present key). Oracle: number of Persist.Load calls during the single API call (reading a node twice counts twice): LoadMast, Clone, Cursor() <= 1; Get <= h+1; Insert/Delete/failed Delete at unchanged height <= 2(h+1); on trees with more than 10*(4(h+1)+4) nodes a single cursor move / Min / Max / Ceil / a SeekIter stopped at its first entry <= 4(h+1)+4 (a deliberately generous sub-linear cap). " +
+		Rule: "case = persisted tree (generated history over the key pools, bf 2-64, heights 0-5; plus an enumerated family of large trees of 600-2500 (thorough 40000) consecutive int keys at bf 2, 4 and 16, with absent keys of every layer below and above the stored range) re-opened WITHOUT cache for each of 1-8 probes (operation kind x key present/absent of any layer, incl. inserts of the highest-layer absent key below the minimum / anywhere and deletes of the highest-layer present key). Oracle: number of Persist.Load calls during the single API call (reading a node twice counts twice): LoadMast, Clone, Cursor() <= 1; Get <= h+1; Insert/Delete/failed Delete at unchanged height <= 2(h+1); further probes: Clone / MakeRoot of an opened-then-modified version, lookups with a key of another type, several lookups on one handle, legacy and over-tall root records, typed destinations on nil-valued trees, and lookups on an opening WITHOUT ValuesLike (<= h+1 as well); on trees with more than 10*(4(h+1)+4) nodes a single cursor move / Min / Max / Ceil / a SeekIter stopped at its first entry <= 4(h+1)+4 (a deliberately generous sub-linear cap). " +
 			"Non-trivial = height >= 2 AND the tree has >= 4(h+1) nodes; distinct by case hash",
 		Assumptions: []string{"each probe runs on a freshly opened tree so nothing is already in memory", "the un-numbered clause ('nothing else proportional to the tree') is checked with a generous sub-linear cap only on trees large enough to tell"},
 		Gen:         genC16,
